@@ -442,9 +442,9 @@ func hasFid(fids []p9p.VerifFid, f p9p.Fid) bool {
 }
 
 func c20Ops(rich bool) func(key string, hist []FOp) []FOp {
-	nameLists := [][]string{{}, {"a"}, {"a", "b"}, {"x"}, {"a", "x"}, {"a", "."}, {"", "a"}, {"a", "..", "a"}, {".."}, {"."}, {"a", ".."}, {""}}
+	nameLists := [][]string{{}, {"a"}, {"a", "b"}, {"x"}, {"a", "x"}, {"a", "."}, {"", "a"}, {"a", "..", "a"}, {".."}, {"."}, {"a", ".."}, {""}, {"a/b"}, {"a", "x\\y"}}
 	if rich {
-		nameLists = append(nameLists, []string{"c"}, []string{"a", "d"}, []string{"a", "b", ".."}, []string{"a/b"}, []string{".", "."})
+		nameLists = append(nameLists, []string{"c"}, []string{"a", "d"}, []string{"a", "b", ".."}, []string{".", "."})
 	}
 	return func(key string, hist []FOp) []FOp {
 		// number of live entries is recoverable from the key
@@ -483,7 +483,7 @@ func c20Ops(rich bool) func(key string, hist []FOp) []FOp {
 func c20(c *core.Ctx) {
 	vsync.SeqMode = true
 	c.Budget(70*time.Second, 10*time.Minute)
-	c.SetRule("breadth-first search over histories of client-layer operations (Attach, Walk with name lists incl. '.', '', 'x/..' forms and '..', Open, OpenDir, Create, Stat, WStat, Clunk, Remove on up to 3 live entries) through CFileSys over a spying Session over the real SFileSys over a mock file system, with at most 1 injected file-system failure (thorough); after every step: exactly the corresponding session call on the entry's own fid (spy log), walks the server completed reported as success with the walked-to qid, live entries <-> pairwise distinct fids, server fid table (hook) == fids of live entries; fixpoint of (live-entry set) states")
+	c.SetRule("breadth-first search over histories of client-layer operations (Attach, Walk with name lists incl. '.', '', 'x/..' forms and '..', Open, OpenDir, Create, Stat, WStat, Clunk, Remove on up to 3 live entries) through CFileSys over a spying Session over the real SFileSys over a mock file system, with at most 1 injected file-system failure (thorough); after every step: exactly the corresponding session call on the entry's own fid (spy log), walks the server completed reported as success with the walked-to qid, live entries <-> pairwise distinct fids, server fid table (hook) == fids of live entries; fixpoint of (live-entry set) states; because that key hides the client layer's own counters, every explored history is followed on its (discarded) instance by probe walks of every live entry under the same oracle")
 	c.Assume("name normalisation reference: stack machine written from the property statement", "server behaviour per the reference fid table of C08")
 	dev := 0
 	if !c.Quick() {
@@ -550,6 +550,34 @@ func c20Exec(dev int) func(hist []FOp) explore.SeqResult[FOp] {
 			}
 		}
 		res.Key = r.key()
+		// Probe: histories are merged by the live-entry set, which does not
+		// include state hidden inside the client layer (its fid counter). On
+		// this instance, which is thrown away anyway, every live entry is
+		// therefore cloned and walked once more under the same oracle, so
+		// that a divergence of hidden state shows one step later even when
+		// the history itself is merged with a shorter one.
+		if !res.Dead && len(res.Findings) == 0 && len(hist) > 0 {
+			key, lastN, rdev := res.Key, r.lastN, r.dev
+			n := len(r.live)
+		probes:
+			for e := 0; e < n && len(res.Findings) == 0; e++ {
+				if r.live[e].open {
+					continue // walking from an opened fid: the statement leaves it open
+				}
+				for _, nl := range [][]string{{}, {"a"}} {
+					po := FOp{Kind: "walk", Ent: e, Names: nl, Fail: -1}
+					fs, oc := r.do(po, append(append([]FOp{}, hist...), po))
+					if oc == "not-in-alphabet" {
+						break probes // the instance is no longer tracked by the model
+					}
+					for i := range fs {
+						fs[i].Msg += "\n(found by the probe " + po.String() + " appended to the history)"
+					}
+					res.Findings = append(res.Findings, fs...)
+				}
+			}
+			res.Key, r.lastN, r.dev = key, lastN, rdev
+		}
 		if len(hist) > 0 && !res.Dead && r.dev < dev && hist[len(hist)-1].Fail < 0 {
 			for i := 0; i < r.lastN; i++ {
 				v := hist[len(hist)-1]
